@@ -86,8 +86,8 @@ def write_files(obj, fmt="text", variant=None, tag=""):
     paths = []
     allin = list(obj["inputs"]) + ([obj["clim"]] if obj.get("hasClim") else [])
     for n, inp in enumerate(allin):
-        inp = with_extra(inp)
         use_nc = fmt == "netcdf" or (fmt == "auto" and mat.has_repeats(inp))
+        inp = with_extra_nc(inp) if use_nc else with_extra(inp)
         p = os.path.join(wd, "%sin%d.%s" % (tag, n, "nc" if use_nc else "txt"))
         if os.path.exists(p):
             os.remove(p)
@@ -128,10 +128,11 @@ def field_of(name):
     import verif.field
     if name in ("obs", "fcst"):
         return {"obs": verif.field.Obs, "fcst": verif.field.Fcst}[name]()
+    lvl = (lambda v: float(np.float32(v))) if LEVELS_SINGLE_PRECISION else float
     if name[0] == "q" and mat_isnum(name[1:]):
-        return verif.field.Quantile(float(name[1:]))
+        return verif.field.Quantile(lvl(name[1:]))
     if name[0] == "p" and mat_isnum(name[1:]):
-        return verif.field.Threshold(float(name[1:]))
+        return verif.field.Threshold(lvl(name[1:]))
     if name[0] == "e" and name[1:].isdigit():
         return verif.field.Ensemble(int(name[1:]))
     return verif.field.Other(name)
@@ -155,6 +156,33 @@ def with_extra(inp):
     other.update({k: v for k, v in ex.items() if k not in (inp.get("derived") or [])})      # derived fields have no column: the program computes them
     out["other"] = other
     return out
+
+
+def with_extra_nc(inp):
+    """the same for a NetCDF file, whose layout has no free-form q<level> / p<threshold> / e<member> columns: those extra fields become the
+    x / cdf / ensemble variables with their coordinate variables; every other name stays a variable of its own"""
+    ex = inp.get("extra")
+    if not ex or not isinstance(ex, dict):
+        return inp
+    out = dict(inp)
+    ex = {k: v for k, v in ex.items() if k not in (inp.get("derived") or [])}
+    groups = {"q": ("quantiles", "x"), "p": ("thresholds", "cdf"), "e": ("members", "ens")}
+    other = dict(out.get("other") or {})
+    for prefix, (levels_key, data_key) in groups.items():
+        names = sorted([k for k in ex if k[0] == prefix and mat_isnum(k[1:])], key=lambda k: float(k[1:]))
+        if not names:
+            continue
+        ncell = len(ex[names[0]])
+        out[levels_key] = [float(k[1:]) if prefix != "e" else int(k[1:]) for k in names]
+        out[data_key] = [ex[k][n] for n in range(ncell) for k in names]
+    for k, v in ex.items():
+        if not (k[0] in groups and mat_isnum(k[1:])):
+            other[k] = v
+    out["other"] = other
+    return out
+
+
+LEVELS_SINGLE_PRECISION = False      # set while a NetCDF dataset is replayed: the layout stores quantile levels / thresholds as single-precision numbers
 
 
 def do_request(data, r):
